@@ -263,6 +263,8 @@ def part_a(ctx, rng, capdrop):
                     ctx.distinct(("A", "".join(sorted(mode_s)), kind))
                     ctx.count(f"st.kind.{kind}")
                     w = dict(mode=mode_s, kind=kind, given=given, cwd_kwarg=kw.get("cwd"), process_cwd=os.path.relpath(cwd, ctx.workdir), expected=expd, outcome=o.brief(), capabilities_dropped=capdrop)
+                    if ctx.counters["mon.path_mode_checks"] in (7, 400):
+                        ctx.sample(dict(part="A", **{k: w[k] for k in ("mode", "kind", "given", "expected", "outcome")}))
                     if os.getcwd() != before_cwd:
                         ctx.violation("path", "cwd-changed-by-Path", w)
                         os.chdir(before_cwd)
@@ -411,6 +413,8 @@ def part_b_case(ctx, i, rng):
             ctx.violation("relative", f"relative-path-not-resolved-against-its-config-file/level{key.count('.')}/{how.split()[0]}", dict(w, key=key, expected=exp, got=short(got)))
             return
         ctx.count("mon.relative_paths_checked")
+    if i < 2:
+        ctx.sample(dict(part="B", depth=depth, how=how, dirs=w["dirs"], resolved={k: short(cfg.get(k), 120) for k in expected}))
 
 
 def run_shard(ctx):
